@@ -1103,13 +1103,26 @@ def r6_levels(ctx, ci, rule):
             ctx.ob(rule, fi, "%s works on the flattened set" % m, True, {},
                    fi.node)
             continue
-        for lp in walk_no_nested(fi.node):
-            if not isinstance(lp, ast.For) or \
-                    not isinstance(lp.target, ast.Name):
+        class _L:          # a loop or a comprehension clause over levels
+            def __init__(self, target, it, scope):
+                self.target, self.iter, self.scope = target, it, scope
+                self.lineno = getattr(scope, "lineno", 0)
+        level_loops = []
+        for x_ in walk_no_nested(fi.node):
+            if isinstance(x_, ast.For):
+                level_loops.append(_L(x_.target, x_.iter, x_))
+            elif isinstance(x_, (ast.ListComp, ast.GeneratorExp,
+                                 ast.SetComp)):
+                for gen in x_.generators:
+                    level_loops.append(_L(gen.target, gen.iter, x_))
+        for lp_ in level_loops:
+            if not isinstance(lp_.target, ast.Name):
                 continue
-            rb = _range_bounds(lp.iter)
+            rb = _range_bounds(lp_.iter)
             if rb is None:
                 continue
+            lp = lp_.scope
+            lp_target_id = lp_.target.id
             used = []
             for x in ast.walk(lp):
                 o = levelset_owner(x, al) if isinstance(x, ast.Subscript) \
@@ -1121,7 +1134,7 @@ def r6_levels(ctx, ci, rule):
             lo = linear(_subst_maxdepth(rb[0]), "MAXDEPTH")
             hi = linear(_subst_maxdepth(rb[1]), "MAXDEPTH")
             for lv in used:
-                off = linear(lv, lp.target.id)
+                off = linear(lv, lp_target_id)
                 cnt += 1
                 if lo is None or hi is None or off is None or off[0] != 1:
                     ctx.unknown_site(rule, fi, norm(lp), lp)
